@@ -391,11 +391,17 @@ func cmdOracle(args []string) {
 		}
 		sc := bufio.NewScanner(f)
 		sc.Buffer(make([]byte, 1<<20), 1<<28)
+		var bad error
 		for sc.Scan() {
+			if bad != nil {
+				// a malformed line that is not the last one of its file
+				fmt.Fprintln(os.Stderr, "harness: bad tuple:", bad)
+				os.Exit(exitTrouble)
+			}
 			var t Tuple
 			if err := json.Unmarshal(sc.Bytes(), &t); err != nil {
-				fmt.Fprintln(os.Stderr, "harness: bad tuple:", err)
-				os.Exit(exitTrouble)
+				bad = err // tolerated only as the truncated tail of an interrupted worker
+				continue
 			}
 			ts = append(ts, t)
 		}
